@@ -1,5 +1,5 @@
 """Scripted step command: applies file operations to the current directory.
-argv: ops like create:path:text  modify:path:text  delete:path  rename:a:b  stamp:path  mkdir:path  cd:dir  echo:text  exit:n"""
+argv: ops like create:path:text  modify:path:text  delete:path  rename:a:b  stamp:path  mkdir:path  cd:dir  echo:text  progress:text  exit:n"""
 import os
 import sys
 
@@ -35,6 +35,10 @@ for op in sys.argv[1:]:
     elif kind == "echo":
         sys.stdout.write(rest + "\n")
         sys.stderr.write("err:" + rest + "\n")
+    elif kind == "progress":
+        # a progress line redrawn with carriage returns, the last one not followed by a line feed
+        sys.stdout.write("%s  50%%\r%s 100%%\r" % (rest, rest))
+        sys.stderr.write("%s...\r" % rest)
     elif kind == "exit":
         code = int(rest)
 sys.exit(code)
